@@ -81,7 +81,7 @@ CHECKS['C15'] = dict(
 )
 
 _TBL = H('h_table.c', 'asan')
-_tbl_bounds = {'quick': 'structure sweep: all increasing key sequences of length<=4 from K9={e,00,0000,01,7f,80,8000,ff,ffff} x value sizes {0,1,600}^n x 6 compression types x restart {1,2,16} x block size 1024 x foreign prefix {0,13}; cadence sweep n in {r-1,r,r+1,2r,2r+1,100,1000} for r in {1,2,3,16,17} x 3 key families; length sweep (klen,vlen) in {0,1,127,128,129,16383,16384,16385}^2 alone and between two small entries; level sweep 40 levels INT_MIN..INT_MAX x 6 types',
+_tbl_bounds = {'quick': 'structure sweep: all increasing key sequences of length<=4 from K9={e,00,0000,01,7f,80,8000,ff,ffff} x value sizes {0,1,600}^n x 6 compression types x restart {1,2,16} x block size 1024 x foreign prefix {0,13}; cadence sweep n in {r-1,r,r+1,2r,2r+1,100,1000} for r in {1,2,3,16,17} x 3 key families; length sweep (klen,vlen) in {0,1,127,128,129,16383,16384,16385}^2 alone and between two small entries; level sweep 40 levels INT_MIN..INT_MAX x 6 types; option magnitudes: block size {1,1023,1025,65536,2^31-1,2^31,2^32-1,2^32,2^32+1,2^40+5,2^63,2^64-1} x restart {1,16,1000} x 6 types x prefix {0,13}',
                'thorough': 'as quick with sequences of length<=5, value sizes {0,1,600,1100}, restart {1,2,3,16,17}, block size {1024,1025,4096}, prefix {0,1,13,4096}, lengths up to 2^21; giant: default options with one value of 2^30 incompressible bytes, and zlib with block size 2^33 holding two values of 2^31 zero bytes (one data block above 4 GiB)'}
 
 CHECKS['C01'] = dict(
@@ -89,7 +89,7 @@ CHECKS['C01'] = dict(
     technique='bounded-exhaustive enumeration of (key sequence, value sizes, writer configuration) through the real writer and reader, compared with the input sequence; real mtbl_dump binary on a deterministic subset',
     text='Every table of the bounded input/configuration space is written by the real writer into a memory file, opened by the real reader and iterated; the result must be the input sequence byte for byte. The space is built around the format\'s boundaries (empty key, prefixes, 0x00/0xff bytes, varint width changes at 128 and 16384, entries larger than a block, every block-cut position, every compression type and level class, restart cadence, foreign prefix), which the 15 tests touch at two shapes only. Thorough tier: one value of 2^30 incompressible bytes under default options, and one zlib data block above 4 GiB (sizes at which zlib\'s 32-bit counters wrap).',
     jobs=[   # cheap jobs first: when the wall-clock budget ends, it is the big sweep that is cut short
-        dict(name='level', spec=_TBL, args=['level']),
+        dict(name='level', spec=_TBL, args=['level'], tools=['mtbl_dump']),
         dict(name='separators-16bit', spec=_TBL, args=['sep16']),
         dict(name='madvise', spec=_TBL, args=['madvise']),
         dict(name='cadence', spec=_TBL, args=['cadence'], tools=['mtbl_dump']),
@@ -129,6 +129,7 @@ CHECKS['C10'] = dict(
     text='For every file of the bounded space the nine trailer statistics exposed by the accessors (and printed by mtbl_info) are compared with the truth recomputed from the bytes by the independent decoder: entries, data blocks, bytes of data blocks and of the index block including headers, key and value byte sums, index offset, block size, algorithm, version.',
     jobs=[
         dict(name='refused-adds', spec=H('h_gate.c', 'asan'), args=[]),
+        dict(name='level', spec=_TBL, args=['level'], tools=['mtbl_info']),
         dict(name='cadence', spec=_TBL, args=['cadence'], tools=['mtbl_info']),
         dict(name='length', spec=_TBL, args=['length'], tools=['mtbl_info']),
         dict(name='pool', spec=_TBL, args=['pool']),
@@ -236,7 +237,7 @@ _SRT_NOHOOK = H('h_sorter.c', 'asan', tu_flags={'mtbl/sorter.c': ['-Dmkstemp=vf_
 CHECKS['C06'] = dict(
     level=MC, engine='seqx',
     technique='exhaustive enumeration of input sequences x every memory budget (hence every chunking the budget mechanism can produce) through the real sorter, fold-tree merge oracle; mkstemp seam; cross-check without the hook at the real 10 MiB floor',
-    text='Every input sequence of length <=6 (thorough <=9) over keys {empty, a, b} with unique value tags is sorted under every max_memory from 1 byte up to everything-in-memory (the MTBL_VERIF hook lets the public setter go that low), through the iterator and through mtbl_sorter_write (file decoded independently). Output must be the distinct keys ascending with fold trees whose leaves are exactly the values added per key. The mkstemp seam records every spill template (must lie directly in the configured directory) and the spill count after each add (a spill must have happened once buffered key+value bytes reach the limit). After iteration began add/write must be refused and change nothing. Pools of 1,2,8 real threads for inputs <=4; one run per tier is repeated WITHOUT the hook at the genuine 10 MiB floor with 3.5 MiB values.',
+    text='Every input sequence of length <=6 (thorough <=9) over keys {empty, a, b} with unique value tags is sorted under every max_memory from 1 byte up to everything-in-memory (the MTBL_VERIF hook lets the public setter go that low), through the iterator and through mtbl_sorter_write (file decoded independently). Output must be the distinct keys ascending with fold trees whose leaves are exactly the values added per key. The mkstemp seam records every spill template (must lie directly in the configured directory) and the spill count after each add (a spill must have happened once buffered key+value bytes reach the limit). After iteration began add/write must be refused and change nothing. The same sweep at length <=4 (thorough <=6) runs over three more key pools: 4-5 byte keys whose leading bytes span 0x00..0xff, long keys in prefix relation, keys around the 0x7f/0x80 boundary (word-wise or signed comparisons in the in-memory sort go wrong there). Pools of 1,2,8 real threads for inputs <=4; one run per tier is repeated WITHOUT the hook at the genuine 10 MiB floor with 3.5 MiB values.',
     jobs=[
         dict(name='sequences', spec=_SRT, args=['seq']),
         dict(name='pooled', spec=_SRT, args=['pool']),
@@ -244,7 +245,7 @@ CHECKS['C06'] = dict(
     ],
     states_key='cases', transitions_key='transitions', traces_key='cases',
     rule='one case = (key sequence, budget, pool size, iterate|write, merge on/off); signature = (#chunks, length, pool, mode)',
-    bounds={'quick': 'sequences of length<=6 over 3 keys (1093) x every budget 1..cost+2 (step 3 for n=6) x {iterate, write}; pooled: length<=4 x pools {1,2,8} (budget step 5); 6 runs at the unhooked 10 MiB floor',
+    bounds={'quick': 'sequences of length<=6 over 3 keys (1093) x every budget 1..cost+2 (step 3 for n=6) x {iterate, write}; three more key pools (4-5 byte keys) at length<=4 (pooled <=3); pooled: length<=4 x pools {1,2,8} (budget step 5); 6 runs at the unhooked 10 MiB floor',
             'thorough': 'length<=9 (29524 sequences; every budget for n<=6, step 7 for n=7,8, step 19 for n=9); pooled length<=5'},
     nonzero=['cases', 'multi_chunk_runs'],
     assumptions=['spilling earlier than the limit is accepted', 'spill timing is only observed without a pool (with a pool the spill is asynchronous)'],
@@ -340,7 +341,7 @@ CHECKS['C19'] = dict(
     jobs=[dict(name='open', spec=_RO, args=[])],
     states_key='states', transitions_key='transitions', traces_key='cases',
     rule='one case = (damage family, seed, parameters, verify_checksums, entry point); signature = (family, seed)',
-    bounds={'quick': 'all families on 6 seeds x {verify off,on} x {init, init_fd}; see harness/h_ropen.c for the value sets',
+    bounds={'quick': 'all families on 6 seeds x {verify off,on} x {init, init_fd}; see harness/h_ropen.c for the value sets (truncations, single-byte replacements, index offset values, index length prefixes, restart counts, two-field family: 0..40 bytes of space before the trailer x 50 boundary length prefixes)',
             'thorough': 'same (the families are exhaustive as defined)'},
     nonzero=['cases', 'returned_null', 'returned_reader', 'mmap_env_cases'],
     assumptions=['unstructured content is covered only by a fixed pseudo-random family (3 x 3000 files quick, 3 x 300000 thorough; generator with fixed seeds); the structured families target every field the open path reads'],
